@@ -21,7 +21,7 @@ fn random_env(r: &mut Prng, pool_heavy: bool) -> Env {
         sched_seed: r.next_u64() >> 16,
         entropy_seed: 1 + (r.next_u64() >> 16),
         clock_seed: 1 + (r.next_u64() >> 16),
-        context: *r.pick(&[Context::External, Context::InWorker, Context::Siblings]),
+        context: *r.pick(&[Context::External, Context::InWorker, Context::Siblings, Context::Warm]),
         replay: None,
     }
 }
@@ -34,6 +34,7 @@ fn envs_for(r: &mut Prng, uses_pool: bool, thorough: bool) -> Vec<Env> {
         Env { entropy_seed: 1 + (r.next_u64() >> 16), ..e0.clone() },
         Env { clock_seed: 1 + (r.next_u64() >> 16), ..e0.clone() },
         Env { context: Context::InWorker, ..e0.clone() },
+        Env { context: Context::Warm, ..e0.clone() },
         Env { threads: *r.pick(&[2usize, 3, 4, 5]), policy: "eager-steal".into(), sched_seed: r.next_u64() >> 16, ..e0.clone() },
         Env { threads: 16, policy: "chaos".into(), sched_seed: r.next_u64() >> 16, ..e0.clone() },
         // all together
@@ -387,7 +388,8 @@ pub fn check(tier: &str, seed: u64, only: Option<&str>) -> i32 {
                     || stats.workers_used >= 2
                     || (stats.hashkey_draws > 0 && env.entropy_seed != 0)
                     || (stats.clock_reads > 0 && env.clock_seed != 0)
-                    || (r.kth_in_process > 0 && planned.meta[i].2);
+                    || (r.kth_in_process > 0 && planned.meta[i].2)
+                    || env.context == Context::Warm;
                 if nontrivial {
                     distinct.insert((*si, planned.meta[i].1.seed, planned.meta[i].1.size as u8, stats.sched_hash, env.entropy_seed, env.clock_seed, env.context));
                 }
@@ -400,6 +402,7 @@ pub fn check(tier: &str, seed: u64, only: Option<&str>) -> i32 {
                         Context::External => "",
                         Context::InWorker => " +inworker",
                         Context::Siblings => " +siblings",
+                        Context::Warm => " +warm",
                     }
                 );
                 *matrix.entry(s.krate.to_string()).or_default().entry(col).or_default() += 1;
@@ -490,11 +493,15 @@ pub fn check(tier: &str, seed: u64, only: Option<&str>) -> i32 {
     }
     if !unreproducible.is_empty() {
         for u in &unreproducible {
-            eprintln!("HARNESS ERROR: {u}");
+            eprintln!("NOT REPRODUCED (never reported as a violation): {u}");
         }
-        // a difference that does not replay is never reported as a VIOLATION
-        write_c20_evidence(tier, seed, evaluations, &distinct, &pool_sizes, &tot, &matrix, &controls_fired, &controls_seen, &kth_positions, sim_time_ns, &samples, &planned, &reg, reported, &known_hits, t0, wall_batch, &nocompare_crashes, classes.len(), fresh_runs);
-        return 2;
+        if reported == 0 {
+            // differences were seen in the batch but none replays: a harness problem (or a
+            // dependence on something the simulator does not control), never a VIOLATION
+            eprintln!("HARNESS ERROR: {} difference(s) seen in the batch did not reproduce in fresh processes", unreproducible.len());
+            write_c20_evidence(tier, seed, evaluations, &distinct, &pool_sizes, &tot, &matrix, &controls_fired, &controls_seen, &kth_positions, sim_time_ns, &samples, &planned, &reg, reported, &known_hits, t0, wall_batch, &nocompare_crashes, classes.len(), fresh_runs);
+            return 2;
+        }
     }
     write_c20_evidence(tier, seed, evaluations, &distinct, &pool_sizes, &tot, &matrix, &controls_fired, &controls_seen, &kth_positions, sim_time_ns, &samples, &planned, &reg, reported, &known_hits, t0, wall_batch, &nocompare_crashes, classes.len(), fresh_runs);
     println!(
@@ -554,7 +561,7 @@ fn write_c20_evidence(
         coverage: json!({
             "evaluations": evaluations,
             "distinct_nontrivial": distinct.len(),
-            "rule": "one evaluation = one simulated process running one scenario (data seed, size) in one environment (pool size, policy, scheduler seed, entropy seed, clock seed, calling context); every fingerprint is compared bit for bit with the same scenario in the reference environment (T=1, sequential, entropy 0, clock 0, external caller). Non-trivial: at least one steal happened or at least two workers executed jobs, or a hash-key draw was served under a non-reference entropy seed, or a clock read under a non-reference clock seed, or a reference run that was not the first run of its OS process; distinct = distinct (scenario, data seed, size, executed-schedule hash, entropy seed, clock seed, context) tuples among those, counted with a hash set",
+            "rule": "one evaluation = one simulated process running one scenario (data seed, size) in one environment (pool size, policy, scheduler seed, entropy seed, clock seed, calling context); every fingerprint is compared bit for bit with the same scenario in the reference environment (T=1, sequential, entropy 0, clock 0, external caller). Non-trivial: at least one steal happened or at least two workers executed jobs, or a hash-key draw was served under a non-reference entropy seed, or a clock read under a non-reference clock seed, or a reference run that was not the first run of its OS process, or a run preceded by a warm-up fit on the same threads; distinct = distinct (scenario, data seed, size, executed-schedule hash, entropy seed, clock seed, context) tuples among those, counted with a hash set",
             "samples": samples,
             "scenarios": scen_names.len(),
             "scenario_names": scen_names,
